@@ -94,6 +94,8 @@ pub struct AGen {
     pub close_pm: usize,
     pub drop_pm: usize,
     pub trav: bool,
+    /// upper bound for the length of the initial vector
+    pub init_max: usize,
 }
 
 pub fn gen_lim(rng: &mut Rng, kinds: &[Kind], pks: &[PK], maxn: usize) -> Stage {
@@ -118,7 +120,7 @@ pub fn gen_stage(rng: &mut Rng, pks: &[PK], maxn: usize) -> Stage {
 
 pub fn gen_adp_history(rng: &mut Rng, chain: Vec<Stage>, batched: bool, g: &AGen) -> AdpHistory {
     let capacity = *rng.pick(g.caps);
-    let n_init = rng.below(g.maxlen.min(6) + 1);
+    let n_init = rng.below(g.init_max + 1);
     let init: Vec<u32> = (0..n_init).map(|_| rng.below(g.vmax as usize) as u32).collect();
     let mut model = init.clone();
     let eager = rng.chance(1, 3);
@@ -369,6 +371,7 @@ pub fn run_c09(p: &Params) -> Outcome {
         close_pm: 10,
         drop_pm: 8,
         trav: true,
+        init_max: 6,
     };
     out.merge(rand_adp(
         "C09",
@@ -379,6 +382,9 @@ pub fn run_c09(p: &Params) -> Outcome {
         &|rng| (vec![gen_lim(rng, ALL_KINDS, BASIC_PKS, 8)], rng.chance(1, 2)),
         &nt,
     ));
+    // large vectors: views with dozens of items, sources beyond one imbl chunk (64)
+    let gbig = AGen { maxlen: 110, init_max: 90, vmax: 400, max_ops: 30, ..g.clone() };
+    out.merge(rand_adp("C09", p, "c09-rand-large", p.n(6_000, 200_000), &gbig, &|rng| (vec![gen_lim(rng, ALL_KINDS, BASIC_PKS, 100)], rng.chance(1, 2)), &nt));
     out
 }
 
@@ -422,6 +428,7 @@ pub fn run_c10(p: &Params) -> Outcome {
         close_pm: 0,
         drop_pm: 8,
         trav: true,
+        init_max: 6,
     };
     out.merge(rand_adp(
         "C10",
@@ -435,6 +442,12 @@ pub fn run_c10(p: &Params) -> Outcome {
         },
         &nt,
     ));
+    // large vectors: views with dozens of items, sources beyond one imbl chunk (64)
+    let gbig = AGen { maxlen: 110, init_max: 90, vmax: 400, max_ops: 30, ..g.clone() };
+    out.merge(rand_adp("C10", p, "c10-rand-large", p.n(6_000, 200_000), &gbig, &|rng| {
+        let m = [0b0101u8, 0b1110, 0b0111, 0b1111, 0b0001][rng.below(5)];
+        (vec![if rng.chance(1, 2) { Stage::Filter(m) } else { Stage::FilterMap(m) }], rng.chance(1, 2))
+    }, &nt));
     out
 }
 
@@ -481,6 +494,7 @@ pub fn run_c11(p: &Params) -> Outcome {
         close_pm: 0,
         drop_pm: 8,
         trav: true,
+        init_max: 6,
     };
     out.merge(rand_adp(
         "C11",
@@ -491,6 +505,9 @@ pub fn run_c11(p: &Params) -> Outcome {
         &|rng| (vec![*rng.pick(&[Stage::Sort, Stage::SortBy, Stage::SortByKey])], rng.chance(1, 2)),
         &nt,
     ));
+    // large vectors: views with dozens of items, sources beyond one imbl chunk (64)
+    let gbig = AGen { maxlen: 110, init_max: 90, vmax: 400, max_ops: 30, ..g.clone() };
+    out.merge(rand_adp("C11", p, "c11-rand-large", p.n(6_000, 200_000), &gbig, &|rng| (vec![*rng.pick(&[Stage::Sort, Stage::SortBy, Stage::SortByKey])], rng.chance(1, 2)), &nt));
     out
 }
 
@@ -566,6 +583,7 @@ pub fn run_c12(p: &Params) -> Outcome {
         close_pm: 10,
         drop_pm: 8,
         trav: false,
+        init_max: 6,
     };
     out.merge(rand_adp(
         "C12",
@@ -579,6 +597,12 @@ pub fn run_c12(p: &Params) -> Outcome {
         },
         &nt,
     ));
+    // large vectors: views with dozens of items, sources beyond one imbl chunk (64)
+    let gbig = AGen { maxlen: 110, init_max: 90, vmax: 400, max_ops: 30, ..g.clone() };
+    out.merge(rand_adp("C12", p, "c12-rand-large", p.n(6_000, 200_000), &gbig, &|rng| {
+        let n = rng.range(2, 3);
+        ((0..n).map(|_| gen_stage(rng, ALL_PKS, 60)).collect(), rng.chance(1, 2))
+    }, &nt));
     out
 }
 
@@ -668,6 +692,7 @@ pub fn run_c13(p: &Params) -> Outcome {
         close_pm: 5,
         drop_pm: 8,
         trav: true,
+        init_max: 6,
     };
     out.merge(rand_adp(
         "C13",
@@ -792,6 +817,7 @@ pub fn run_c14(p: &Params) -> Outcome {
         close_pm: 20,
         drop_pm: 10,
         trav: false,
+        init_max: 6,
     };
     out.merge(rand_adp(
         "C14",
@@ -847,6 +873,7 @@ pub fn run_c15(p: &Params) -> Outcome {
         close_pm: 0,
         drop_pm: 5,
         trav: true,
+        init_max: 6,
     };
     out.merge(rand_adp(
         "C15",
@@ -869,5 +896,8 @@ pub fn run_c15(p: &Params) -> Outcome {
         },
         &nt,
     ));
+    // large vectors: views with dozens of items, sources beyond one imbl chunk (64)
+    let gbig = AGen { maxlen: 110, init_max: 90, vmax: 400, max_ops: 30, ..g.clone() };
+    out.merge(rand_adp("C15", p, "c15-rand-large", p.n(6_000, 200_000), &gbig, &|rng| (vec![gen_lim(rng, &[Kind::Head, Kind::Tail], &[PK::Static], 90)], rng.chance(1, 2)), &nt));
     out
 }
